@@ -8,17 +8,17 @@ let int_of_nat (n : Model.nat) : int =
   go 0 n
 
 let rec pos_of_int (i : int) : Model.positive =
-  if i <= 1 then Model.XH
-  else if i land 1 = 0 then Model.XO (pos_of_int (i lsr 1))
-  else Model.XI (pos_of_int (i lsr 1))
+  if i <= 1 then Model.Coq_xH
+  else if i land 1 = 0 then Model.Coq_xO (pos_of_int (i lsr 1))
+  else Model.Coq_xI (pos_of_int (i lsr 1))
 
 let z_of_int (i : int) : Model.z =
   if i = 0 then Model.Z0 else if i > 0 then Model.Zpos (pos_of_int i) else Model.Zneg (pos_of_int (-i))
 
 let rec int_of_pos = function
-  | Model.XH -> 1
-  | Model.XO p -> 2 * int_of_pos p
-  | Model.XI p -> 2 * int_of_pos p + 1
+  | Model.Coq_xH -> 1
+  | Model.Coq_xO p -> 2 * int_of_pos p
+  | Model.Coq_xI p -> 2 * int_of_pos p + 1
 
 let int_of_z = function
   | Model.Z0 -> 0
